@@ -9,4 +9,30 @@ theorem accepts_trace {σ : Type} [HasBad σ] (f : σ → Item → σ) (i : σ) 
     (h : HasBad.bad (runR f i (run cfg script evs).out) = false) : accepts f i (trace cfg script evs) = true := by
   simp [accepts, trace, h]
 
+/-- The invariant of every reachable state, assuming NOTHING about the environment (`EnvHyp.sane := False`:
+    the increasing-delivery part of `G` is vacuous, every other part is unconditional). -/
+theorem run_top0 (cfg : Cfg) (script : List PEntry) (evs : List Ev) : @Top' ⟨False⟩ cfg (run cfg script evs) :=
+  @run_top ⟨False⟩ cfg script evs (fun h => h.elim)
+
+/-! The parts of the invariant that need no assumption, without the switch in their types. -/
+theorem run_g1 (cfg : Cfg) (script : List PEntry) (evs : List Ev) : G1 (run cfg script evs) := by
+  letI : EnvHyp := ⟨False⟩; exact (run_top0 cfg script evs).1.g1
+theorem run_sf (cfg : Cfg) (script : List PEntry) (evs : List Ev) : Gsf (run cfg script evs) := by
+  letI : EnvHyp := ⟨False⟩; exact (run_top0 cfg script evs).1.sf
+theorem run_res (cfg : Cfg) (script : List PEntry) (evs : List Ev) : Gres (run cfg script evs) := by
+  letI : EnvHyp := ⟨False⟩; exact (run_top0 cfg script evs).1.res
+theorem run_ack (cfg : Cfg) (script : List PEntry) (evs : List Ev) : Gack (run cfg script evs) := by
+  letI : EnvHyp := ⟨False⟩; exact (run_top0 cfg script evs).1.ack
+theorem run_pay (cfg : Cfg) (script : List PEntry) (evs : List Ev) : Gpay (run cfg script evs) := by
+  letI : EnvHyp := ⟨False⟩; exact (run_top0 cfg script evs).1.pay
+theorem run_fo (cfg : Cfg) (script : List PEntry) (evs : List Ev) : Gfo (run cfg script evs) := by
+  letI : EnvHyp := ⟨False⟩; exact (run_top0 cfg script evs).1.fo
+
+/-- The increasing-delivery part of the invariant, for event lists whose every event satisfies `EvOk`
+    (`EnvHyp.sane := True`). -/
+theorem run_inc (cfg : Cfg) (script : List PEntry) (evs : List Ev) (he : ∀ e ∈ evs, EvOk e) :
+    Ginc cfg (run cfg script evs) := by
+  letI : EnvHyp := ⟨True⟩
+  exact (run_top cfg script evs (fun _ => he)).1.inc trivial
+
 end Afkak.Proofs.Consumer
